@@ -98,6 +98,91 @@ def event__checkRoomIDField : List String := [
   "return nil"
 ]
 
+def event__checkUntrustedEventJSON : List String := [
+  "func func(eventJSON []byte) error",
+  "if name, found := duplicateJSONKey(eventJSON); found {",
+  "return BadJSONError{fmt.Errorf(\"gomatrixserverlib: duplicate key %q in event JSON\", name)}",
+  "}",
+  "var variant string",
+  "gjson.ParseBytes(eventJSON).ForEach(func(key, _ gjson.Result) bool { for _, name := range eventJSONFieldNames { if key.Str != name && strings.EqualFold(key.Str, name) { variant = key.Str return false } } return true })",
+  "if variant != \"\" {",
+  "return BadJSONError{fmt.Errorf(\"gomatrixserverlib: key %q in event JSON is a case variant of an event field\", variant)}",
+  "}",
+  "return nil"
+]
+
+def event__duplicateJSONKey : List String := [
+  "func func(data []byte) (name string, found bool)",
+  "var stack []map[string]struct{}",
+  "expectKey := false",
+  "for i := 0; i < len(data); i++ {",
+  "switch data[i] {",
+  "case '{':",
+  "stack = append(stack, map[string]struct{}{})",
+  "expectKey = true",
+  "case '[':",
+  "stack = append(stack, nil)",
+  "expectKey = false",
+  "case '}', ']':",
+  "if len(stack) == 0 {",
+  "return \"\", false",
+  "}",
+  "stack = stack[:len(stack)-1]",
+  "expectKey = false",
+  "case ',':",
+  "expectKey = len(stack) > 0 && stack[len(stack)-1] != nil",
+  "case '\"':",
+  "end, escaped := i+1, false",
+  "for ; end < len(data) && data[end] != '\"';  {",
+  "if data[end] == '\\\\' {",
+  "escaped = true",
+  "end++",
+  "}",
+  "end++",
+  "}",
+  "if end >= len(data) {",
+  "return \"\", false",
+  "}",
+  "if expectKey {",
+  "key := string(data[i+1 : end])",
+  "if escaped && json.Unmarshal(data[i:end+1], &key) != nil {",
+  "return \"\", false",
+  "}",
+  "names := stack[len(stack)-1]",
+  "if _, dup := names[key]; dup {",
+  "return key, true",
+  "}",
+  "names[key] = struct{}{}",
+  "expectKey = false",
+  "}",
+  "i = end",
+  "}",
+  "if len(stack) > maxJSONNestingDepth {",
+  "return \"\", false",
+  "}",
+  "}",
+  "return \"\", false"
+]
+
+def event__jsonFieldNames : List String := [
+  "func func(t reflect.Type) []string",
+  "var names []string",
+  "for i := 0; i < t.NumField(); i++ {",
+  "field := t.Field(i)",
+  "tag, _, _ := strings.Cut(field.Tag.Get(\"json\"), \",\")",
+  "switch {",
+  "case field.Anonymous && tag == \"\" && field.Type.Kind() == reflect.Struct:",
+  "names = append(names, jsonFieldNames(field.Type)...)",
+  "case !field.IsExported() || tag == \"-\":",
+  "case tag != \"\":",
+  "names = append(names, tag)",
+  "default:",
+  "names = append(names, field.Name)",
+  "}",
+  "}",
+  "return names"
+]
+
 def event_builder_EventBuilder_AddAuthEvents : List String := [
   "func func(provider AuthEventProvider) error",
   "eventsNeeded, err := StateNeededForProtoEvent(&ProtoEvent{Type: eb.Type, StateKey: eb.StateKey, Content: eb.Content, SenderID: eb.SenderID, Version: eb.version})",
@@ -688,6 +773,6 @@ def spec_userid__parseAndValidateUserID : List String := [
   "return userID, nil"
 ]
 
-def functions : List String := ["eventV2.go:.CheckFields", "event.go:EventValidationError.Error", "event.go:.SplitID", "event.go:.checkID", "event.go:.checkRoomIDField", "event_builder.go:EventBuilder.AddAuthEvents", "event_builder.go:EventBuilder.Build", "event_builder.go:EventBuilder.SetContent", "event_builder.go:EventBuilder.SetUnsigned", "event_builder.go:.eventHashFromEventID", "event_builder.go:.toEventReference", "eventversion.go:RoomVersionImpl.CheckCanonicalJSON", "eventversion.go:RoomVersionImpl.CheckCreateEvent", "eventversion.go:RoomVersionImpl.CheckKnockingAllowed", "eventversion.go:RoomVersionImpl.CheckPowerLevelEvent", "eventversion.go:RoomVersionImpl.CheckRestrictedJoin", "eventversion.go:RoomVersionImpl.CheckRestrictedJoinsAllowed", "eventversion.go:RoomVersionImpl.DomainlessRoomIDs", "eventversion.go:RoomVersionImpl.EventFormat", "eventversion.go:RoomVersionImpl.EventIDFormat", "eventversion.go:RoomVersionImpl.NewEventBuilder", "eventversion.go:RoomVersionImpl.NewEventBuilderFromProtoEvent", "eventversion.go:RoomVersionImpl.NewEventFromTrustedJSON", "eventversion.go:RoomVersionImpl.NewEventFromTrustedJSONWithEventID", "eventversion.go:RoomVersionImpl.NewEventFromUntrustedJSON", "eventversion.go:RoomVersionImpl.ParsePowerLevels", "eventversion.go:RoomVersionImpl.PrivilegedCreators", "eventversion.go:RoomVersionImpl.RedactEventJSON", "eventversion.go:RoomVersionImpl.RestrictedJoinServername", "eventversion.go:RoomVersionImpl.SignatureValidityCheck", "eventversion.go:RoomVersionImpl.Stable", "eventversion.go:RoomVersionImpl.StateResAlgorithm", "eventversion.go:RoomVersionImpl.Version", "eventversion.go:UnsupportedRoomVersionError.Error", "eventversion.go:.GetRoomVersion", "eventversion.go:.KnownRoomVersion", "eventversion.go:.MustGetRoomVersion", "eventversion.go:.NewEventFromHeaderedJSON", "eventversion.go:.RoomVersions", "eventversion.go:.SetRoomVersion", "eventversion.go:.StableRoomVersion", "eventversion.go:.StableRoomVersions", "spec/base64.go:Base64Bytes.Decode", "spec/base64.go:Base64Bytes.Encode", "spec/base64.go:Base64Bytes.MarshalJSON", "spec/base64.go:Base64Bytes.MarshalYAML", "spec/base64.go:Base64Bytes.Scan", "spec/base64.go:Base64Bytes.UnmarshalJSON", "spec/base64.go:Base64Bytes.UnmarshalYAML", "spec/base64.go:Base64Bytes.Value", "spec/roomid.go:RoomID.Domain", "spec/roomid.go:RoomID.OpaqueID", "spec/roomid.go:RoomID.String", "spec/roomid.go:.NewRoomID", "spec/roomid.go:.parseAndValidateRoomID", "spec/senderid.go:SenderID.IsPseudoID", "spec/senderid.go:SenderID.IsUserID", "spec/senderid.go:SenderID.RawBytes", "spec/senderid.go:SenderID.ToPseudoID", "spec/senderid.go:SenderID.ToUserID", "spec/senderid.go:.SenderIDFromPseudoIDKey", "spec/senderid.go:.SenderIDFromUserID", "spec/servername.go:.ParseAndValidateServerName", "spec/servername.go:.isDNSNameChar", "spec/servername.go:.splitServerName", "spec/userid.go:UserID.Domain", "spec/userid.go:UserID.Local", "spec/userid.go:UserID.String", "spec/userid.go:.NewUserID", "spec/userid.go:.NewUserIDOrPanic", "spec/userid.go:.historicallyValidCharacters", "spec/userid.go:.parseAndValidateUserID"]
+def functions : List String := ["eventV2.go:.CheckFields", "event.go:EventValidationError.Error", "event.go:.SplitID", "event.go:.checkID", "event.go:.checkRoomIDField", "event.go:.checkUntrustedEventJSON", "event.go:.duplicateJSONKey", "event.go:.jsonFieldNames", "event_builder.go:EventBuilder.AddAuthEvents", "event_builder.go:EventBuilder.Build", "event_builder.go:EventBuilder.SetContent", "event_builder.go:EventBuilder.SetUnsigned", "event_builder.go:.eventHashFromEventID", "event_builder.go:.toEventReference", "eventversion.go:RoomVersionImpl.CheckCanonicalJSON", "eventversion.go:RoomVersionImpl.CheckCreateEvent", "eventversion.go:RoomVersionImpl.CheckKnockingAllowed", "eventversion.go:RoomVersionImpl.CheckPowerLevelEvent", "eventversion.go:RoomVersionImpl.CheckRestrictedJoin", "eventversion.go:RoomVersionImpl.CheckRestrictedJoinsAllowed", "eventversion.go:RoomVersionImpl.DomainlessRoomIDs", "eventversion.go:RoomVersionImpl.EventFormat", "eventversion.go:RoomVersionImpl.EventIDFormat", "eventversion.go:RoomVersionImpl.NewEventBuilder", "eventversion.go:RoomVersionImpl.NewEventBuilderFromProtoEvent", "eventversion.go:RoomVersionImpl.NewEventFromTrustedJSON", "eventversion.go:RoomVersionImpl.NewEventFromTrustedJSONWithEventID", "eventversion.go:RoomVersionImpl.NewEventFromUntrustedJSON", "eventversion.go:RoomVersionImpl.ParsePowerLevels", "eventversion.go:RoomVersionImpl.PrivilegedCreators", "eventversion.go:RoomVersionImpl.RedactEventJSON", "eventversion.go:RoomVersionImpl.RestrictedJoinServername", "eventversion.go:RoomVersionImpl.SignatureValidityCheck", "eventversion.go:RoomVersionImpl.Stable", "eventversion.go:RoomVersionImpl.StateResAlgorithm", "eventversion.go:RoomVersionImpl.Version", "eventversion.go:UnsupportedRoomVersionError.Error", "eventversion.go:.GetRoomVersion", "eventversion.go:.KnownRoomVersion", "eventversion.go:.MustGetRoomVersion", "eventversion.go:.NewEventFromHeaderedJSON", "eventversion.go:.RoomVersions", "eventversion.go:.SetRoomVersion", "eventversion.go:.StableRoomVersion", "eventversion.go:.StableRoomVersions", "spec/base64.go:Base64Bytes.Decode", "spec/base64.go:Base64Bytes.Encode", "spec/base64.go:Base64Bytes.MarshalJSON", "spec/base64.go:Base64Bytes.MarshalYAML", "spec/base64.go:Base64Bytes.Scan", "spec/base64.go:Base64Bytes.UnmarshalJSON", "spec/base64.go:Base64Bytes.UnmarshalYAML", "spec/base64.go:Base64Bytes.Value", "spec/roomid.go:RoomID.Domain", "spec/roomid.go:RoomID.OpaqueID", "spec/roomid.go:RoomID.String", "spec/roomid.go:.NewRoomID", "spec/roomid.go:.parseAndValidateRoomID", "spec/senderid.go:SenderID.IsPseudoID", "spec/senderid.go:SenderID.IsUserID", "spec/senderid.go:SenderID.RawBytes", "spec/senderid.go:SenderID.ToPseudoID", "spec/senderid.go:SenderID.ToUserID", "spec/senderid.go:.SenderIDFromPseudoIDKey", "spec/senderid.go:.SenderIDFromUserID", "spec/servername.go:.ParseAndValidateServerName", "spec/servername.go:.isDNSNameChar", "spec/servername.go:.splitServerName", "spec/userid.go:UserID.Domain", "spec/userid.go:UserID.Local", "spec/userid.go:UserID.String", "spec/userid.go:.NewUserID", "spec/userid.go:.NewUserIDOrPanic", "spec/userid.go:.historicallyValidCharacters", "spec/userid.go:.parseAndValidateUserID"]
 
 end VPins.C17
